@@ -334,3 +334,25 @@ func openFindings() map[string]bool {
 
 // Errf builds a violation error.
 func Errf(format string, a ...any) error { return fmt.Errorf(format, a...) }
+
+// Fuzz drives the same (gen, exec) pair from Go's coverage-guided fuzzer: the
+// fuzzer's bytes become rapid's source of randomness (rapid.MakeFuzz), so the
+// mutations are steered by coverage of the code under test. A failing Program
+// is also saved as a replay file (the fuzzer's own corpus entry is the byte
+// level reproduction).
+func Fuzz[P any](f *testing.F, spec Spec, gen func(*rapid.T) P, exec func(P, *Case) error) {
+	name := f.Name()
+	f.Fuzz(rapid.MakeFuzz(func(rt *rapid.T) {
+		p := gen(rt)
+		c := &Case{}
+		err := safeExec(p, c, exec)
+		if _, ok := err.(*Inconclusive); ok || err == nil {
+			return
+		}
+		if js, jerr := json.Marshal(p); jerr == nil {
+			path := saveReplay(spec.Prop, strings.Replace(name, "Fuzz", "TestProp", 1), err.Error(), js)
+			fmt.Printf("VERIF-VIOLATION prop=%s test=%s replay=%s msg=%s\n", spec.Prop, name, path, firstLine(err.Error()))
+		}
+		rt.Fatalf("%v\n%s", err, strings.Join(c.log, "\n"))
+	}))
+}
